@@ -8,6 +8,7 @@
           | (6) self.redraw() | (7) scheduler.redraw() | (8) raise | (9) exit | (10) force_quit | (11) get_user_input
           | (12 b) input_required := b | (13 a) answer := a | (14 n) mark | (15 k (then) (else))
           | (16) sys.exit(1) | (17 s) screens[s].redraw() | (18 s) screens[s].close()
+          | (19 b) type-ahead := b | (20 h skip) handler object h: skip_concurrency_check := skip; get_input | (21 h) h.wait_on_input()
    ret    = (0) PROCESSED | (1) PROCESSED_AND_REDRAW | (2) PROCESSED_AND_CLOSE | (3) DISCARDED | (4 key) | (5) None
    result = ((outcome ...) (event ...) (stack entry ids, top first) (level ...)) *)
 From Coq Require Import ZArith NArith List Bool.
@@ -41,6 +42,9 @@ Fixpoint as_scmd (fuel : nat) (s : sx) : option scmd :=
     | L [I 16%Z] => Some SSysExit
     | L [I 17%Z; a] => option_map SRedrawOther (as_nat a)
     | L [I 18%Z; a] => option_map SCloseOther (as_nat a)
+    | L [I 19%Z; b] => option_map SSetTypeAhead (as_bool b)
+    | L [I 20%Z; h; b] => match as_nat h, as_bool b with Some h, Some b => Some (SHandlerAsk h b) | _, _ => None end
+    | L [I 21%Z; h] => option_map SHandlerWait (as_nat h)
     | L [I 15%Z; k; t; e] =>
       match as_nat k, as_list (as_scmd f) t, as_list (as_scmd f) e with
       | Some k, Some t, Some e => Some (SIfCount k t e) | _, _, _ => None end
